@@ -49,6 +49,35 @@ CHECKS = {
              "constraint files rendered offline for iCE40/ECP5/Nexus/Gowin are validated by ResMgrTrace.",
         note="Trusted: TLC, the syntactic table rendering (JSON <-> Resource/Connector objects), the constraint-file "
              "regexes and RTLIL top-port reader. Toolchains needing Yosys are skipped (stated in evidence)."),
+    "C03": dict(
+        category="model_checking", design_ref="DESIGN.md section 4 (C03)",
+        technique="TLA+ event semantics of clock domains and a declarative meaning of inserter/renamer stacks (AmDesign) "
+                  "model-checked by TLC; TLC -simulate behaviours (design configuration + event sequence) replayed on the "
+                  "real ClockDomain/ResetInserter/EnableInserter/DomainRenamer in pysim",
+        text="TLC checks on the model, over all event sequences (clock edges of two domains incl. simultaneous ones, reset, "
+             "control and data changes) of small design sets, that registers change only at their own domain's active "
+             "edge or async reset assertion, that reset-less registers ignore every reset, and that logic outside a "
+             "wrapper is unaffected. Thousands of simulated behaviours over all 36 domain style pairs (pos/neg edge x "
+             "none/sync/async reset), every wrapper stack of depth <= 3 over 8 wrappers and all register placements are "
+             "replayed on the real classes, comparing every register after every event.",
+        note="Trusted: TLC, the syntactic design renderer, pysim as executor. Input/control/reset changes never coincide "
+             "with a clock edge in one testbench write (a testbench race in pysim). Memory ports under wrappers are not "
+             "in this design family."),
+    "C16": dict(
+        category="model_checking", design_ref="DESIGN.md section 4 (C16)",
+        technique="bit-serial TLA+ model of the Williams/Rocksoft CRC and a cycle-level Processor machine (Crc) "
+                  "model-checked by TLC with mutants; TLC-printed CRCs compared literally with compute(); software and "
+                  "per-cycle hardware executions validated by TLC against CrcTrace",
+        text="TLC exhaustively checks the cycle-level Processor machine for every parameter set with crc_width <= 3 "
+             "(thorough <= 4), data width 1..4 and every start/valid/data schedule within a history bound: crc equals the "
+             "Williams fold of the words since the last start, the own CRC in transmission order gives match_detected, "
+             "any other trailer does not (odd polynomials). The real code is bound by literal comparison of TLC-printed "
+             "CRCs for all small parameter sets and by TLC trace validation of compute()/residue() results and "
+             "per-cycle Processor executions for catalogue entries x data widths {1,3,8,16,32} with idle gaps, restarts, "
+             "own and corrupted trailers; every published check/residue value is recomputed from the spec.",
+        note="Trusted: TLC with CommunityModules overrides, pysim as executor, the recording testbench, the frozen "
+             "check-value table transcribed from the repository snapshot (no network). Widths above 4 are sampled, not "
+             "exhaustive."),
     "C05": dict(
         category="model_checking", design_ref="DESIGN.md section 4 (C05)",
         technique="same TLC-enumerated AmExpr programs as C01, evaluated by the testbench tree walker ctx.get(expr); "
